@@ -105,6 +105,16 @@ check("C07", "referrers responses list exactly the manifests with that subject",
       "DESIGN.md §3 C07",
       [R("^TestC07$", 4000, 150000, steps=30)])
 
+check("C16", "repositories isolated; storage access stays inside the root", "exploration",
+      "rapid state machine on a vfs-instrumented build: per-repository models + file-system path log + sentinel tree outside the root",
+      "Randomised stateful search over 3-5 repositories with nested/prefix/reserved-like names (dir store and mem-over-dir), mounts with valid and hostile sources, sessions used "
+      "across repositories, hostile digests/ids/dot-segment paths; every read endpoint of every repository is compared with per-repository models after each step, every path "
+      "handed to a file-system call of internal/store is checked to lie under root/<addressed repository>, and a sentinel tree next to the root is snapshotted (names, sizes, hashes, mtimes).",
+      "Trusted: the check-time rewrite of os.* calls in internal/store to the logging shim (the driver refuses to run if an os.* call remains un-routed); an independent router "
+      "(path.Clean + OCI name grammar) decides which repository a request addresses.",
+      "DESIGN.md §3 C16",
+      [R("^TestC16$", 1200, 40000, steps=30)], variant="vfs")
+
 NOT_APPLICABLE = {}
 
 # --------------------------------------------------------------------------- helpers
